@@ -16,7 +16,7 @@ RULE = ("postconditions on Line/Plane.perpendicular, parallel, project, mirror, 
         "rank), bisectors perpendicular with equal angles. Workload: every orientation class (vertical, horizontal, through the origin, generic), "
         "the point on / off the subspace, 2D and 3D, collections with mixed on/off masks. Non-trivial: >= 2 coordinates outside {0,1,-1}; "
         "distinct by operand digest."
-        " The constructions must leave their operands unchanged (snapshot of the operand bytes before the call). is_cocircular also on points of CP1 (exact cross ratio over Q(i), band between 1e-12 and 1e-6 not judged) and on points of space (exact rank criterion, fourth point lifted out of the plane); angle_bisectors also on lines returned by perpendicular / mirror (imaginary common factor).")
+        " The constructions must leave their operands unchanged (snapshot of the operand bytes before the call). is_cocircular also on points of CP1 (exact cross ratio over Q(i), band between 1e-12 and 1e-6 not judged) and on points of space (exact rank criterion, fourth point lifted out of the plane); angle_bisectors also on lines returned by perpendicular / mirror (imaginary common factor); is_perpendicular on distinct parallel lines of space (a raise for two coplanar lines is judged).")
 SHARDS = (8, 16)
 REQUIRED = ["perpendicular", "parallel", "project", "mirror", "is_parallel", "base_point", "direction", "basis_matrix", "general_point", "is_perpendicular",
             "is_cocircular", "is_coplanar", "angle_bisectors", "operands"]
